@@ -6,8 +6,9 @@ io round trip (msgpack + molli.chem.io v2), append, extend (list, ensemble), sca
 rotate (one matrix, one per conformer), whole-array setters, writes through a conformer (coords / charges,
 whole row and element-wise, scale / translate / transform of the view), reads through a conformer, a conformer through the
 molecule codec of molli.chem.io (as a MoleculeLibrary stores it), iter()/next()
-on any number of interleaved iterators, nested loops, dumps inside a loop, slices, dumps_xyz / dumps_mol2 of a
-conformer and of the ensemble} are driven through the REAL ConformerEnsemble / Conformer classes.  Numbers are
+on any number of interleaved iterators, nested loops, dumps inside a loop, slices (every form: negative / zero /
+out-of-range / missing start and stop, steps of either sign and of size > 1, step 0), a transformation applied through
+every element of a slice, dumps_xyz / dumps_mol2 of a conformer and of the ensemble} are driven through the REAL ConformerEnsemble / Conformer classes.  Numbers are
 integer-valued doubles (or NaN), all distinct when handed in, so every transform is exact and a row read from the
 wrong place is visible.  After EVERY call the harness records whether it raised, what it returned and every
 ensemble created so far (n_atoms, coords, atomic_charges, weights: shapes and contents); `check_case` of
@@ -16,7 +17,12 @@ theorems of Props/C14.v are about those very definitions.
 
 Python oracle: judges the property on the implementation alone after every step: rectangularity, view reads and
 write-through both ways (incl. handles created earlier), frame (nothing else changes), iteration order / count,
-dumps and io round trip of every conformer.
+dumps and io round trip of every conformer; ens[a:b:c] is exactly [ens[i] for i in range(n)[a:b:c]] (own re-implementation
+of the list-slice rule, cross-checked against CPython's), each element a live view of its row, and a write through the
+elements of a slice lands in exactly those rows, once.
+
+Slice sweep: every slice with start, stop in {None} u [-n-2, n+2] and step in {None, 1, 2, 3, -1, -2, -3, 0} of ensembles
+of n = 0..4 (thorough: 0..6) conformers is taken (and, for a part of them, written through).
 """
 import os, sys, json, math
 import vlib
@@ -159,6 +165,8 @@ def op_term(op):
         return f"(LoopDump {nat(op[1])})"
     if k == "slice":
         return f"(Slice {nat(op[1])} {opt_t(op[2], zt)} {opt_t(op[3], zt)} {opt_t(op[4], zt)})"
+    if k == "slice_translate":
+        return f"(SliceTranslate {nat(op[1])} {opt_t(op[2], zt)} {opt_t(op[3], zt)} {opt_t(op[4], zt)} {vec_t(op[5])})"
     if k in ("dump_xyz", "dump_mol2"):
         return f"({'DumpXyz' if k == 'dump_xyz' else 'DumpMol2'} {nat(op[1])})"
     if k in ("c_dump_xyz", "c_dump_mol2"):
@@ -291,10 +299,11 @@ def parse_mol2(text):
 
 # ------------------------------------------------------------------ the world: real objects
 class World:
-    def __init__(self):
+    def __init__(self, cap=None):
         import numpy as np
         import molli as ml
         self.np, self.ml = np, ml
+        self.cap = cap         # slice sweeps only: at most this many slice elements are kept per row as long-lived handles
         self.E = []            # real ensembles, index = creation order
         self.IT = []           # [iterator object, ensemble index, alive, yields so far, exhausted]
         self.H = {}            # (i, k) -> [Conformer objects created earlier]
@@ -477,11 +486,15 @@ class World:
                 out = ("ids", ids)
             elif k == "slice":
                 e = self.E[op[1]]
-                cs = e[slice(op[2], op[3], op[4])]
-                out = ("ids", [conf_index(np, c, e) for c in cs])
-                for c in cs:
-                    if conf_index(np, c, e) >= 0:
-                        self.H.setdefault((op[1], conf_index(np, c, e)), []).append(c)
+                cs = list(e[slice(op[2], op[3], op[4])])
+                ids = [conf_index(np, c, e) if isinstance(c, ml.chem.Conformer) else -1 for c in cs]
+                out = ("ids", ids)
+                for c, kk in zip(cs, ids):
+                    if kk >= 0 and (self.cap is None or len(self.H.get((op[1], kk), ())) < self.cap):
+                        self.H.setdefault((op[1], kk), []).append(c)
+            elif k == "slice_translate":
+                for c in self.E[op[1]][slice(op[2], op[3], op[4])]:
+                    c.translate([float(x) for x in op[5]])
             elif k == "dump_xyz":
                 b = parse_xyz(self.E[op[1]].dumps_xyz())
                 out = ("xyz", b if b is not None else [[[BOGUS] * 3]])
@@ -507,6 +520,7 @@ class World:
 RESIZE = ("append", "extend", "extend_ens")
 CONF_WRITE = ("c_set_coords", "c_set_coord_elem", "c_set_charges", "c_set_charge_elem", "c_scale", "c_translate", "c_transform")
 ENS_WRITE = ("scale", "invert", "translate1", "translate2", "rotate1", "rotaten", "set_coords", "set_charges", "set_weights")
+SLICE_WRITE = ("slice_translate",)
 
 
 def rect_of(s):
@@ -523,7 +537,64 @@ def resolve_idx(k, n):
     return None
 
 
-def judge(w, before, after, op, raised, out, iter_expect):
+def list_slice(n, a, b, c):
+    """The indices list(range(n))[a:b:c] selects, by the rule of the language reference (written out here, NOT through
+    slice.indices, which is what the implementation uses): None for a zero step (ValueError)."""
+    st = 1 if c is None else c
+    if st == 0:
+        return None
+    def clip(x, lo, hi):
+        if x < 0:
+            x += n
+        return lo if x < lo else hi if x > hi else x
+    if st > 0:
+        i = 0 if a is None else clip(a, 0, n)
+        j = n if b is None else clip(b, 0, n)
+        out = []
+        while i < j:
+            out.append(i)
+            i += st
+    else:
+        i = n - 1 if a is None else clip(a, -1, n - 1)
+        j = -1 if b is None else clip(b, -1, n - 1)
+        out = []
+        while i > j:
+            out.append(i)
+            i += st
+    return out
+
+
+def slice_forms(n, a, b, c):
+    """the forms a slice belongs to, the most unusual first (the first one names the signature)"""
+    f = []
+    if c == 0:
+        f.append("zero-step")
+    if c is not None and c < 0:
+        f.append("neg-step")
+    if b == 0:
+        f.append("zero-stop")
+    if a is not None and a < 0:
+        f.append("neg-start")
+    if b is not None and b < 0:
+        f.append("neg-stop")
+    if any(x is not None and (x > n or x < -n) for x in (a, b)):
+        f.append("out-of-range")
+    if c is not None and abs(c) > 1:
+        f.append("step>1")
+    want = list_slice(n, a, b, c)
+    if want == [] and n > 0:
+        f.append("empty-result")
+    if not f or f == ["empty-result"]:
+        f.append("plain")
+    return f
+
+
+def slice_txt(a, b, c):
+    t = lambda x: "" if x is None else str(x)
+    return f"ens[{t(a)}:{t(b)}" + ("]" if c is None else f":{c}]")
+
+
+def judge(w, before, after, op, raised, out, iter_expect, exn=None):
     """-> [(signature, text)].  before/after: snapshots of every ensemble."""
     np = w.np
     res = []
@@ -565,6 +636,16 @@ def judge(w, before, after, op, raised, out, iter_expect):
             res.append((f"C14:view:{k}:raises", f"{k} on conformer {op[2]} of ensemble #{op[1]} ({before[op[1]]['nconf']} conformers) raised"))
         if k in ("dump_xyz", "dump_mol2", "nested", "loop_dump", "serialise", "iter_new", "iter_next"):
             res.append((f"C14:{k}:raises", f"{k} on ensemble/iterator #{op[1]} raised"))
+        if k in ("slice", "slice_translate") and op[4] != 0:
+            kn = before[op[1]]["nconf"]
+            form = slice_forms(kn, op[2], op[3], op[4])[0]
+            if k == "slice":
+                res.append((f"C14:slice:raises:{form}", f"{slice_txt(op[2], op[3], op[4])} on an ensemble of {kn} conformers raised {exn}; "
+                            f"a list slice selects rows {list_slice(kn, op[2], op[3], op[4])}"))
+            else:
+                res.append((f"C14:slice:write:raises:{form}", f"for c in {slice_txt(op[2], op[3], op[4])}: c.translate({op[5]}) on an ensemble of "
+                            f"{kn} conformers raised {exn} (taking the slice or writing through one of its elements); the slice selects rows "
+                            f"{list_slice(kn, op[2], op[3], op[4])}, each a writable view"))
         return res
     tgt = op[1] if (k != "new" and isinstance(op[1], int)) else None
     # frame: no operation changes an ensemble other than its target; constructors / round trips add exactly one
@@ -697,10 +778,28 @@ def judge(w, before, after, op, raised, out, iter_expect):
         kn = before[tgt]["nconf"]
         if out != ("ids", list(range(kn))):
             res.append(("C14:iter:dump-in-loop", f"a loop over ensemble #{tgt} ({kn} conformers) that dumps the ensemble inside visited {out[1]}"))
-    if k == "slice":
+    if k in ("slice", "slice_translate"):
         kn = before[tgt]["nconf"]
-        if out != ("ids", list(range(kn))[slice(op[2], op[3], op[4])]):
-            res.append(("C14:slice", f"ens[{op[2]}:{op[3]}:{op[4]}] of {kn} conformers gave conformers {out[1]}"))
+        want = list_slice(kn, op[2], op[3], op[4])
+        form = slice_forms(kn, op[2], op[3], op[4])[0]
+        txt = slice_txt(op[2], op[3], op[4])
+        if want is None:
+            res.append(("C14:slice:zero-step", f"{txt} on an ensemble of {kn} conformers did not raise" +
+                        (f" and gave the conformers of rows {out[1]}" if k == "slice" else "") + "; a list slice with step 0 is a ValueError"))
+        elif k == "slice":
+            if out != ("ids", want):
+                shown = out[1] if len(out[1]) <= 12 else f"{out[1][:12]}... ({len(out[1])} conformers)"
+                res.append((f"C14:slice:{form}", f"{txt} on an ensemble of {kn} conformers gave the conformers of rows {shown} "
+                            f"(-1: not a view of any row); [ens[i] for i in range({kn})[{txt[4:-1]}]] are rows {want}"))
+        else:
+            b, a = before[tgt], after[tgt]
+            v = op[5]
+            exp_c = [([[None if x is None else x + d for x, d in zip(row, v)] for row in conf] if j in want else conf)
+                     for j, conf in enumerate(b["c"])]
+            if a["c"] != exp_c or a["q"] != b["q"] or a["w"] != b["w"]:
+                moved = [j for j in range(min(len(a["c"]), len(b["c"]))) if a["c"][j] != b["c"][j]]
+                res.append((f"C14:slice:write:{form}", f"for c in {txt}: c.translate({v}) on an ensemble of {kn} conformers: rows {moved} "
+                            f"changed; exactly rows {sorted(want)} must be translated, once each, and nothing else"))
     if k in ("dump_xyz", "dump_mol2"):
         b = before[tgt]
         want = b["c"] if k == "dump_xyz" else [[(r, q) for r, q in zip(c, qq)] for c, qq in zip(b["c"], b["q"])]
@@ -825,7 +924,20 @@ KINDS = (["new"] * 7 + ["serialise"] * 4 + ["append"] * 9 + ["extend"] * 6 + ["e
          + ["translate1"] * 3 + ["translate2"] * 3 + ["rotate1"] * 3 + ["rotaten"] * 3 + ["set_coords"] * 3 + ["set_charges"] * 3
          + ["set_weights"] * 3 + ["c_set_coords"] * 6 + ["c_set_coord_elem"] * 5 + ["c_set_charges"] * 6 + ["c_set_charge_elem"] * 5
          + ["c_scale"] * 2 + ["c_translate"] * 3 + ["c_transform"] * 2 + ["c_read"] * 6 + ["c_store"] * 3 + ["iter_new"] * 6 + ["iter_next"] * 16
-         + ["nested"] * 3 + ["loop_dump"] * 2 + ["slice"] * 5 + ["dump_xyz"] * 3 + ["dump_mol2"] * 3 + ["c_dump_xyz"] * 3 + ["c_dump_mol2"] * 3)
+         + ["nested"] * 3 + ["loop_dump"] * 2 + ["slice"] * 5 + ["slice_translate"] * 3 + ["dump_xyz"] * 3 + ["dump_mol2"] * 3 + ["c_dump_xyz"] * 3 + ["c_dump_mol2"] * 3)
+
+
+def gen_slice(rng, kn):
+    """(start, stop, step) over every form: missing / zero / negative / exactly +-n / out-of-range bounds, steps of both
+    signs and of size > 1, now and then step 0"""
+    def bound():
+        z = rng.random()
+        if z < 0.3:
+            return None
+        if z < 0.6:
+            return rng.choice([0, 0, -1, 1, kn, -kn, kn - 1, kn + 2, -kn - 2, -kn - 1])
+        return rng.randint(-kn - 2, kn + 2)
+    return bound(), bound(), rng.choice([None, None, None, 1, 2, 3, -1, -1, -2, -3, 0])
 
 
 def gen_op(w, rng, snap):
@@ -927,10 +1039,11 @@ def gen_op(w, rng, snap):
             return ["iter_next", rng.choice(live)]
         if k in ("nested", "loop_dump", "dump_xyz", "dump_mol2"):
             return [k, i]
-        if k == "slice":
-            def b():
-                return rng.choice([None, None, rng.randint(-kn - 2, kn + 2)])
-            return ["slice", i, b(), b(), rng.choice([None, None, 1, 2, -1, -2, 3, 0])]
+        if k in ("slice", "slice_translate"):
+            a_, b_, c_ = gen_slice(rng, kn)
+            if k == "slice":
+                return ["slice", i, a_, b_, c_]
+            return ["slice_translate", i, a_, b_, c_, small_vec(rng)]
     return ["c_read", 0, 0, False]
 
 
@@ -940,9 +1053,9 @@ def canon_op(op):
     return json.loads(json.dumps(op))
 
 
-def run_history(ops_or_gen, rng):
-    """-> (coq case term, executed ops, findings [(sig, text, step)], stats [(kind, exception name)])"""
-    w = World()
+def run_history(ops_or_gen, rng, cap=None):
+    """-> (coq case term, executed ops, findings [(sig, text, step)], stats [(kind, exception name, slice forms)])"""
+    w = World(cap)
     steps, done, findings, stats = [], [], [], []
     snap = []
     i = 0
@@ -958,7 +1071,14 @@ def run_history(ops_or_gen, rng):
         iter_expect = w.IT[op[1]][3] if op[0] == "iter_next" and op[1] < len(w.IT) else 0
         raised, exn, out = w.execute(op)
         after = w.snapshot()
-        for s, t in judge(w, snap, after, op, raised, out, iter_expect):
+        try:
+            verdicts = judge(w, snap, after, op, raised, out, iter_expect, exn)
+        except Exception as ex:
+            # the implementation did something of a form the oracle's bookkeeping cannot follow (an implementation that
+            # keeps the property never gets here): reported with the history instead of stopping the whole run
+            verdicts = [(f"C14:unjudgeable:{op[0]}:{type(ex).__name__}", f"after {op[0]} {json.dumps(op[1:])[:200]} (raised={raised}, returned "
+                         f"{json.dumps(out)[:200]}) the oracle could not evaluate the property: {type(ex).__name__}: {ex}")]
+        for s, t in verdicts:
             findings.append((s, t, i))
         if not raised:
             if op[0] in RESIZE:
@@ -973,7 +1093,10 @@ def run_history(ops_or_gen, rng):
                     rec[3] += 1
         steps.append(f"({op_term(strip_shapes(op))}, mkObs {cq_bool(raised)} {out_term(out)} {cq_list(ens_t(s) for s in after)})")
         done.append(op)
-        stats.append((op[0], exn))
+        forms = ()
+        if op[0] in ("slice", "slice_translate") and op[1] < len(snap):
+            forms = slice_forms(snap[op[1]]["nconf"], op[2], op[3], op[4])
+        stats.append((op[0], exn, forms))
         snap = after
         i += 1
     return cq_list(steps), done, findings, stats
@@ -1041,13 +1164,44 @@ def directed():
         [["new", ["none"], 2, 2, None, None, None, False], ["c_set_coords", 0, 1, False, [[1, 2, 3], [4, 5, 6]]], ["c_read", 0, 1, True],
          ["set_coords", 0, [[[7, 8, 9], [10, 11, 12]], [[13, 14, 15], [16, 17, 18]]], [2, 2]], ["c_read", 0, 1, True],
          ["slice", 0, None, None, -1], ["c_transform", 0, 0, True, [[0, 1, 0], [1, 0, 0], [0, 0, 1]]], ["rotaten", 0, [PERMS[1], PERMS[2]]]],
+        # the unusual-but-legal slice forms on six conformers, reading and writing through the elements
+        [["new", ["mol", ["lit", [[1, 2, 3]], [4]]], 6, 0, [[[[10 * j + 1, 10 * j + 2, 10 * j + 3]] for j in range(6)], [6, 1]],
+          [[[100 + j] for j in range(6)], [6, 1]], None, False]]
+        + [["slice", 0, a, b, c] for a, b, c in [(None, 0, None), (0, 0, None), (2, 0, None), (-2, None, None), (None, -1, None), (-4, -1, None),
+                                                 (None, None, -1), (4, 1, -1), (-1, None, -2), (-100, 2, None), (1, 100, 2), (None, None, 0)]]
+        + [["slice_translate", 0, -2, None, None, [1, 1, 1]], ["slice_translate", 0, None, 0, None, [2, 2, 2]],
+           ["slice_translate", 0, None, None, -2, [3, 3, 3]], ["slice_translate", 0, None, -4, None, [4, 4, 4]], ["c_read", 0, -2, True],
+           ["dump_xyz", 0]],
     ]
+
+
+def sweep_plans(nmax, every):
+    """Every slice with start, stop in {None} u [-n-2, n+2] and step in {None, +-1, +-2, +-3, 0} of an ensemble of n = 0..nmax
+    one-atom conformers, cut into histories of 24 slices; every `every`-th slice is also written through."""
+    plans = []
+    for n in range(nmax + 1):
+        if n == 0:
+            first = ["new", ["none"], 0, 1, None, None, None, False]
+        else:
+            first = ["new", ["list", [["lit", [[10 * j + 1, 10 * j + 2, 10 * j + 3]], [100 + j]] for j in range(n)]], None, 0, None, None, None, False]
+        B = [None] + list(range(-n - 2, n + 3))
+        sl = [(a, b, c) for c in (None, 1, 2, 3, -1, -2, -3, 0) for a in B for b in B]
+        for t in range(0, len(sl), 24):
+            ops = [first]
+            for u, (a, b, c) in enumerate(sl[t:t + 24]):
+                ops.append(["slice", 0, a, b, c])
+                if (t + u) % every == 0:
+                    ops.append(["slice_translate", 0, a, b, c, [1 + (t + u) % 5, 2, 3]])
+            plans.append(ops)
+    return plans
 
 
 # ------------------------------------------------------------------ entry points
 def run(ctx, rep):
-    rep.rule = ("histories of calls on ConformerEnsemble / Conformer starting from nothing: 3 directed regression histories, then random "
-                "histories of 6..20 calls over the 32-letter alphabet of the module docstring (up to 4 ensembles of 0..3 atoms and 0..8 "
+    rep.rule = ("histories of calls on ConformerEnsemble / Conformer starting from nothing: 4 directed regression histories; the slice sweep "
+                "(EVERY slice with start, stop in {None} u [-n-2, n+2] and step in {None, +-1, +-2, +-3, 0} of ensembles of n = 0..4 "
+                "(thorough: 0..6) conformers, 24 per history, every 4th (2nd) also written through); then random "
+                "histories of 6..20 calls over the 33-letter alphabet of the module docstring (up to 4 ensembles of 0..3 atoms and 0..8 "
                 "conformers, any number of interleaved iterators, conformer handles reused long after they were created); after every call: "
                 "raised?, return value, and every ensemble (n_atoms, coords, atomic_charges, weights) are recorded and replayed by the Coq "
                 "model; a history is non-trivial when at least one ensemble was resized or written and one value was read back through a "
@@ -1067,24 +1221,36 @@ def run(ctx, rep):
     warnings.simplefilter("ignore")
     ok, outp, where = vlib.build_props(ctx, rep, "C14")
     rng = ctx.rng
+    # the oracle's own list-slice rule agrees with CPython's on every slice of the sweep's range (and beyond)
+    rule_ok = all(list_slice(n, a, b, c) == list(range(n))[slice(a, b, c)]
+                  for n in range(9) for c in (None, 1, 2, 3, 4, -1, -2, -3, -4)
+                  for a in [None] + list(range(-n - 3, n + 4)) for b in [None] + list(range(-n - 3, n + 4)))
+    rep.oblig("oracle_list_slice_rule_is_cpythons", rule_ok)
+    if not rule_ok:
+        raise RuntimeError("harness/c14.py: list_slice disagrees with CPython's list slicing")
     n_rand = 12000 if ctx.thorough else 1500
     cases, meta, found = [], [], False
-    plans = [("directed", h) for h in directed()] + [("random", rng.randint(6, 20)) for _ in range(n_rand)]
+    sweeps = sweep_plans(6 if ctx.thorough else 4, 2 if ctx.thorough else 4)
+    plans = ([("directed", h) for h in directed()] + [("sweep", h) for h in sweeps]
+             + [("random", rng.randint(6, 20)) for _ in range(n_rand)])
     for mode, payload in plans:
         if mode == "random":
             L = payload
             gen = (lambda w, i, snap, L=L: gen_op(w, rng, snap) if i < L else None)
         else:
             gen = payload
-        case, done, findings, stats = run_history(gen, rng)
+        rep.count("family:" + mode)
+        case, done, findings, stats = run_history(gen, rng, cap=(2 if mode == "sweep" else None))
         cases.append(case)
         meta.append(done)
-        wrote = any(e is None and k in RESIZE + CONF_WRITE + ENS_WRITE for k, e in stats)
+        wrote = any(e is None and k in RESIZE + CONF_WRITE + ENS_WRITE + SLICE_WRITE for k, e, _ in stats)
         read = any(e is None and k in ("c_read", "c_store", "iter_next", "nested", "loop_dump", "slice", "dump_xyz", "dump_mol2", "c_dump_xyz",
-                                       "c_dump_mol2", "serialise") for k, e in stats)
+                                       "c_dump_mol2", "serialise") for k, e, _ in stats)
         rep.case(key=json.dumps(done) if (wrote and read) else None, sample={"ops": [o[:3] for o in done[:5]]} if mode == "random" else None)
-        for k, e in stats:
+        for k, e, forms in stats:
             rep.count(f"op:{k}:" + ("ok" if e is None else e))
+            for f in forms:
+                rep.count(f"{k}-form:{f}")
         seen = set()
         for sig, text, stepi in findings:
             if sig in seen:
